@@ -67,6 +67,8 @@ func init() {
 			{Name: "big-matrix", Build: "instr", Fn: c20BigMatrix},
 			{Name: "float-carriers", Build: "instr", Procs: 1, Fn: c20Floats},
 			{Name: "integer-carriers", Build: "instr", Procs: 1, Fn: c20Ints},
+			{Name: "truthiness-carriers", Build: "instr", Procs: 4, Fn: c20RunCarriers},
+			{Name: "shared-subvalues", Build: "instr", Fn: c20RunShared},
 		},
 		Judge: c20Judge,
 		Assumptions: []string{
@@ -465,6 +467,12 @@ func c20OpsPoint(r *core.Run, x, y doc, tx bool) *core.Violation {
 }
 
 func c20Judge(r *core.Run, phase string, pt map[string]any) *core.Violation {
+	if pbool(pt, "carriers") {
+		return c20CarrierJudge(r, pt)
+	}
+	if pbool(pt, "shared") {
+		return c20SharedJudge(r, pt)
+	}
 	if pbool(pt, "ints") {
 		sub := *r
 		sub.Clusters = map[string]*core.Cluster{}
